@@ -463,11 +463,14 @@ func (rs *resolver) collect(stmts []ast.Stmt, guards []wguard, out *[]wcall, bad
 		case *ast.SwitchStmt:
 			// a tagless switch is an if-chain: each clause runs under its own condition (a clause after others also under
 			// their negations, which carry no nil/loop knowledge)
-			if s.Tag != nil || s.Init != nil {
+			if s.Tag != nil {
 				if bad != nil {
 					*bad = append(*bad, fmt.Sprintf("statement kind %T at %s is outside the recognised idioms", st, rs.w.r.Prog.Position(st.Pos())))
 				}
 				continue
+			}
+			if s.Init != nil { // switch item := &n.List[i]; { case item.X != nil: … }
+				rs.collect([]ast.Stmt{s.Init}, guards, out, bad)
 			}
 			for _, c := range s.Body.List {
 				cc := c.(*ast.CaseClause)
